@@ -880,7 +880,7 @@ impl LdapConnAsync {
                         };
                         let (item, mut remove) = match protoop.id {
                             4 | 25 => (SearchItem::Entry(protoop), false),
-                            5 => (SearchItem::Done(Tag::StructureTag(protoop).into()), true),
+                            5 => (SearchItem::Done(Tag::StructureTag(protoop)), true),
                             19 => (SearchItem::Referral(protoop), false),
                             _ => panic!("unrecognized op id: {}", protoop.id),
                         };
